@@ -12,6 +12,7 @@ correspondence-broken; then Search evaluates the block before/after the real pas
 values with an independent word evaluator and reports a failing input if an observation changes.
 """
 import itertools
+import os
 import time
 
 from . import coqrun
@@ -506,7 +507,7 @@ def part_peephole(ctx):
         nbin += len(op_shapes(op)) * len(op_ctxs(op, ctx.tier))
     exprs.append("enc_results 100 [" + "; ".join(coq_case(c) for c in fam[nbin:]) + "]")
     t0 = time.time()
-    outs = coqrun.eval_zlists(defs, exprs, "c14a_peep", shard=max(1, (len(exprs) + 7) // 8), timeout=600)
+    outs = coqrun.eval_zlists(defs, exprs, f"c14a_peep_{os.getpid()}", shard=max(1, (len(exprs) + 7) // 8), timeout=600)
     t_coq = time.time() - t0
     flat = []
     for o in outs:
@@ -595,7 +596,7 @@ def part_misc(ctx):
             exprs.append(f"(mkI 10 Osignextend [Var 5; Lit {coqrun.hexlit(nn)}], [UOther], Some (mkI 5 Osignextend [Var 0; Lit {m}]))")
             meta.append((m, nn))
     real = run_real(texts)
-    outs = coqrun.eval_zlists(IMPORTS, [f"enc_results_p 100 [{'; '.join(exprs)}]"], "c14a_prod", shard=1, timeout=300)
+    outs = coqrun.eval_zlists(IMPORTS, [f"enc_results_p 100 [{'; '.join(exprs)}]"], f"c14a_prod_{os.getpid()}", shard=1, timeout=300)
     for (m, nn), z, rb, text in zip(meta, split_results(outs[0]), real, texts):
         after, t, pre, inst = decode_result(z)
         exp = [(0, "calldataload", [("l", 0)]), (5, "signextend", [("v", 0), ("l", m)])] + pre + [inst,
@@ -630,7 +631,7 @@ def part_misc(ctx):
                 texts.append(f"function {name} {{\n{name}:\n    " + "\n    ".join(lines) + "\n" + tail + "}\n")
                 exprs.append(f"enc_chain {'true' if truthy else 'false'} {depth}")
                 meta.append((root, depth, uname))
-    outs = coqrun.eval_zlists(IMPORTS, ["(" + " ++ ".join(exprs) + ")"], "c14a_chain", shard=1, timeout=300)[0]
+    outs = coqrun.eval_zlists(IMPORTS, ["(" + " ++ ".join(exprs) + ")"], f"c14a_chain_{os.getpid()}", shard=1, timeout=300)[0]
     from vyper.venom.analysis import IRAnalysesCache
     from vyper.venom.parser import parse_venom
     from vyper.venom.passes import AlgebraicOptimizationPass
@@ -663,7 +664,7 @@ def part_misc(ctx):
     fn = list(pctx.functions.values())[0]
     AlgebraicOptimizationPass(IRAnalysesCache(fn), fn).run_pass()
     got = [i.opcode for i in fn.entry.instructions if i.get_outputs() and str(i.get_outputs()[0]) in ("%out", "%3", "%4")]
-    z = coqrun.eval_zlists(IMPORTS, ["enc_offsets"], "c14a_off", shard=1, timeout=120)[0]
+    z = coqrun.eval_zlists(IMPORTS, ["enc_offsets"], f"c14a_off_{os.getpid()}", shard=1, timeout=120)[0]
     want = [OP_CODE[v] for v in z]
     n += 1
     if got != want:
@@ -929,7 +930,7 @@ def part_sccp(ctx):
     op_order = list(by_op)
     for op in op_order:
         exprs.append(f'enc_evals "{op}" [{"; ".join(by_op[op])}]')
-    outs = coqrun.eval_zlists(SCCP_IMPORTS, exprs, "c14a_sccp", shard=max(1, (len(exprs) + 5) // 6), timeout=300)
+    outs = coqrun.eval_zlists(SCCP_IMPORTS, exprs, f"c14a_sccp_{os.getpid()}", shard=max(1, (len(exprs) + 5) // 6), timeout=300)
     model_meet = split_results(outs[0])
     pairs = [(x, y) for x in items for y in items]
     for (x, y), r, m in zip(pairs, real, model_meet):
